@@ -214,9 +214,11 @@ def assembler(ctx):
     src = norm(fn)
     rd = [n for n in walk_local(fn) if isinstance(n, ast.Assign) and isinstance(n.targets[0], ast.Tuple) and [dotted(e) for e in n.targets[0].elts] == ['l2cap_pdu_length'] and norm(n.value) == "struct.unpack_from('<H', packet.data, 0)"]
     R.check(len(rd) == 1, rule, key + ' | length read', "L2CAP length read '<H' at 0 of the start fragment", 'L2CAP length read changed', p.loc(fn))
-    R.check('len(self.current_data) == self.l2cap_pdu_length + 4' in src and 'len(self.current_data) > self.l2cap_pdu_length + 4' in src, rule, key + ' | threshold', 'complete at length + 4 (basic L2CAP header); beyond that is overflow', 'completion/overflow threshold is not the L2CAP length + 4', p.loc(fn))
+    from ..sym import same_ineq
+    tests = [n.test for n in ast.walk(fn) if isinstance(n, ast.If)]
+    R.check(any(same_ineq(t, 'len(self.current_data) == self.l2cap_pdu_length + 4') for t in tests) and any(same_ineq(t, 'len(self.current_data) > self.l2cap_pdu_length + 4') for t in tests), rule, key + ' | threshold', 'complete at length + 4 (basic L2CAP header); beyond that is overflow', 'completion/overflow threshold is not the L2CAP length + 4', p.loc(fn))
     # the overflow branch resets
-    ov = [n for n in ast.walk(fn) if isinstance(n, ast.If) and norm(n.test) == 'len(self.current_data) > self.l2cap_pdu_length + 4']
+    ov = [n for n in ast.walk(fn) if isinstance(n, ast.If) and same_ineq(n.test, 'len(self.current_data) > self.l2cap_pdu_length + 4')]
     ok = len(ov) == 1 and {'self.current_data = None', 'self.l2cap_pdu_length = 0'} <= {norm(s) for s in ov[0].body}
     R.check(ok, rule, key + ' | overflow resets', 'data beyond the announced length discards only this PDU', 'overflow does not reset the assembler (the next PDU is corrupted)', p.loc(fn))
     for q in ('bumble.host.Connection.on_hci_acl_data_packet', 'bumble.controller.Connection.on_hci_acl_data_packet'):
